@@ -81,22 +81,24 @@ def make_kinds(eager, T, entries, red):
 
 
 MAC = lambda *ks: ("macro", list(ks))
-# (name, eager, T, entries, red)
+# (name, eager, T, entries, red, queue bound)
 KINDS_QUICK = [
     # the config guide's example shape: every entry a macro typing its own keys
-    ("mac", True, 3, [MAC("x", "r"), MAC("y"), MAC("z")], 1),
-    ("xx1", True, 2, [("xx",), ("key", "y"), MAC("z")], 1),
-    ("rel1", True, 3, [("relkey", "n"), ("multi", ["y", "t"]), ("lwh", 1)], 0),
-    ("mix", False, 2, [MAC("x"), ("xx",), ("key", "z")], 1),
-    ("mix2", False, 3, [("multi", ["x", "r"]), ("relkey", "n"), MAC("z", "t")], 0),
+    ("mac", True, 3, [MAC("x", "r"), MAC("y"), MAC("z")], 1, 3),
+    ("xx1", True, 2, [("xx",), ("key", "y"), MAC("z")], 1, 3),
+    ("rel1", True, 2, [("relkey", "n"), ("multi", ["y", "t"])], 0, 3),
+    ("mix", False, 2, [MAC("x"), ("xx",)], 1, 2),
 ]
 KINDS_THOROUGH = KINDS_QUICK + [
-    ("mac", False, 3, [MAC("x", "r"), MAC("y"), MAC("z")], 1),
-    ("xx1", False, 2, [("xx",), ("key", "y"), MAC("z")], 0),
-    ("lwh1", False, 3, [("lwh", 1), ("key", "y"), ("xx",)], 1),
-    ("mac4", True, 2, [MAC("x"), ("xx",), MAC("z", "t"), ("key", "1")], 0),
-    ("one", True, 3, [MAC("x", "r")], 1),
-    ("key1", True, 3, [("key", "x"), MAC("y"), ("xx",)], 1),
+    ("rel3", True, 3, [("relkey", "n"), ("multi", ["y", "t"]), ("lwh", 1)], 0, 3),
+    ("mix3", False, 2, [MAC("x"), ("xx",), ("key", "z")], 1, 3),
+    ("mix2", False, 3, [("multi", ["x", "r"]), ("relkey", "n"), MAC("z", "t")], 0, 3),
+    ("mac", False, 3, [MAC("x", "r"), MAC("y"), MAC("z")], 1, 2),
+    ("xx1", False, 2, [("xx",), ("key", "y"), MAC("z")], 0, 2),
+    ("lwh1", False, 3, [("lwh", 1), ("key", "y"), ("xx",)], 1, 2),
+    ("mac4", True, 2, [MAC("x"), ("xx",), MAC("z", "t"), ("key", "1")], 0, 3),
+    ("one", True, 3, [MAC("x", "r")], 1, 3),
+    ("key1", True, 3, [("key", "x"), MAC("y"), ("xx",)], 1, 3),
 ]
 
 
@@ -124,8 +126,8 @@ def family(tier):
     fam += [("two_%s_T%d_n%d_%s_T%d_n%d_r%d%s%s" % (form(A[0]), A[1], A[2], form(B[0]), B[1], B[2], r, "_c" if pl else "",
                                                    "" if q == 3 else "_q%d" % q),
              make2(A, B, r, pl), q) for (A, B, r, pl, q) in pairs]
-    fam += [("kinds_%s_%s_T%d_r%d" % (form(e), nm, T, r), make_kinds(e, T, ents, r), 3)
-            for (nm, e, T, ents, r) in (KINDS_QUICK if tier == "quick" else KINDS_THOROUGH)]
+    fam += [("kinds_%s_%s_T%d_r%d%s" % (form(e), nm, T, r, "" if q == 3 else "_q%d" % q), make_kinds(e, T, ents, r), q)
+            for (nm, e, T, ents, r, q) in (KINDS_QUICK if tier == "quick" else KINDS_THOROUGH)]
     only = os.environ.get("C17_ONLY")      # development aid: run the instances whose name contains this text
     if only:
         fam = [f for f in fam if only in f[0]]
